@@ -165,6 +165,10 @@ pub fn main() {
             }
         }
         "obs" => {
+            if args.flag("marks") {
+                // under the recorder: name the internal phase of every file-system mutation
+                crate::drive::record::install_phase_marks();
+            }
             let how = args.str("how").unwrap_or("open").to_string();
             let deep = !args.flag("shallow");
             let queries: Vec<String> = args.str("queries").map(|q| q.split(',').map(str::to_string).collect()).unwrap_or_default();
